@@ -11,7 +11,7 @@ from hypothesis import strategies as st
 ID = "C17"
 TECHNIQUE = ("Hypothesis-generated set_rate histories against a dict model; propagation and propagation matrix "
              "against scipy.linalg.expm with the exact truncation error of the order-4 expansion as bound")
-LEVEL = ("Generated editing histories (overwrites, zero rates, refused diagonal assignments) are replayed on a "
+LEVEL = ("(Rates from 1e-2 down to 1e-10 per fs, tiny relative refinements of assigned rates, initial populations given as float arrays, integer arrays or lists of ints.) Generated editing histories (overwrites, zero rates, refused diagonal assignments) are replayed on a "
          "RateMatrix and on a dict model, comparing the full matrix after every step; the final matrix is "
          "propagated and compared with the matrix exponential (sum conservation, non-negativity, agreement within "
          "3x the exact truncation error), and get_PropagationMatrix on generated compatible sub-axes (step "
